@@ -90,6 +90,7 @@ func c02RunLongGC(co *caseOut, in c02Input) error {
 		return nil
 	}
 	bs := rec.batches
+	c02ReportTorn(rec, viol, nil)
 	// incremental materialisation (memory backend): maps holding the prefix
 	mem, stor := map[string][]byte{}, map[string][]byte{}
 	apply := func(x c02Batch) {
